@@ -20,7 +20,8 @@ import sympy as sp
 from . import field
 from .harness import Ob
 from .loader import load, rdomain, real_constants
-from .sym import RSym, Sym, unwrap
+from .sym import RSym, Sym, unwrap, record_divisors
+from . import nonzero
 from spec import wgs84
 
 
@@ -104,16 +105,17 @@ def lambdify_at_constants(py, exprs, symbols):
 # ---------------------------------------------------------------------------
 def eq_spec(ctx, name, symbols, code, spec, domain=None, kind="a", cos_nonneg=(),
             cell_names=None, crosscheck=True, tol=1e-9, py=None, extra_relations=(),
-            rdomain_kw=None):
+            rdomain_kw=None, derived=None, const_box=None):
     """Obligations `name[cell]`: code(v) == spec(v) cell by cell, for all values of
     `symbols` in `domain` (boxes are used only by the numeric refuter / cross-check;
     the proof itself is an identity in the fraction field)."""
     py = py or load()
     dom = full_domain(py, domain)
     t0 = time.time()
-    with rdomain(py, **(rdomain_kw or {})):
+    with rdomain(py, **(rdomain_kw or {})), record_divisors() as divs:
         res = code({s.name: RSym(s) for s in symbols})
         got = flat(res)
+    divisor_obligations(ctx, name, divs, dom, code, symbols, py, derived=derived, const_box=const_box)
     want = flat(spec({s.name: s for s in symbols}))
     if len(got) != len(want):
         ctx.add(Ob(name + ".shape", "c", "failed", "shape", time.time() - t0,
@@ -128,7 +130,8 @@ def eq_spec(ctx, name, symbols, code, spec, domain=None, kind="a", cos_nonneg=()
         f = lambdify_at_constants(py, want, symbols)
         with mpmath.workdps(30):
             w = [float(x) for x in f(*[mpmath.mpf(v[s.name]) for s in symbols])]
-        bad = [(i, g[i], w[i]) for i in range(len(g)) if not _close(g[i], w[i], tol)]
+        sc = max([abs(x) for x in w] + [1e-300])
+        bad = [(i, g[i], w[i]) for i in range(len(g)) if not _close(g[i], w[i], tol, sc)]
         if _i is not None:
             bad = [b for b in bad if b[0] == _i]
         return dict(reproduced=bool(bad), inputs=v,
@@ -145,10 +148,11 @@ def eq_spec(ctx, name, symbols, code, spec, domain=None, kind="a", cos_nonneg=()
     return got
 
 
-def _close(a, b, tol):
+def _close(a, b, tol, scale=1.0):
+    """|a-b| <= tol * max(|a|, |b|, 1e-3*scale); `scale` = magnitude of the whole output vector."""
     if math.isnan(a) or math.isnan(b):
         return False
-    return abs(a - b) <= tol * (1.0 + max(abs(a), abs(b)))
+    return abs(a - b) <= tol * max(abs(a), abs(b), 1e-3 * scale, 1e-300)
 
 
 def cross_check(ctx, name, symbols, code, got_exprs, domain, py=None, tol=1e-9, k=None):
@@ -171,13 +175,14 @@ def cross_check(ctx, name, symbols, code, got_exprs, domain, py=None, tol=1e-9, 
         except (ZeroDivisionError, ValueError, FloatingPointError):
             continue
         n_ok += 1
+        sc = max([abs(x) for x in sym] + [1e-300])
         for a, b in zip(native, sym):
-            if not _close(a, b, tol):
+            if not _close(a, b, tol, sc):
                 ctx.add(Ob(name + ".crosscheck", "guard", "error", "cpython-crosscheck", time.time() - t0,
                            "symbolic execution disagrees with native execution at %r: native %r, symbolic %r"
                            % ({s.name: pt[s] for s in symbols}, a, b)))
                 return False
-            worst = max(worst, abs(a - b) / (1.0 + max(abs(a), abs(b))))
+            worst = max(worst, abs(a - b) / max(abs(a), abs(b), 1e-3 * sc))
     ctx.crosscheck_points += n_ok
     if n_ok == 0:
         ctx.add(Ob(name + ".crosscheck", "guard", "error", "cpython-crosscheck", time.time() - t0,
@@ -207,7 +212,7 @@ def taylor_coeffs(exprs, eps, order):
 
 def taylor_spec(ctx, name, symbols, eps, code, spec_coeffs, order, domain=None, kind="b",
                 cos_nonneg=(), cell_names=None, py=None, fd_step=1e-4, tol=2e-5, crosscheck=True,
-                orders=None, rdomain_kw=None, extra_relations=(), post=None):
+                orders=None, rdomain_kw=None, extra_relations=(), post=None, derived=None, const_box=None):
     """Obligations `name[cell].o<k>`: the k-th Taylor coefficient in `eps` of code(v)
     equals spec_coeffs(v)[cell][k] for k in `orders` (default 0..order).
 
@@ -216,11 +221,14 @@ def taylor_spec(ctx, name, symbols, eps, code, spec_coeffs, order, domain=None, 
     py = py or load()
     dom = full_domain(py, domain)
     orders = list(range(order + 1)) if orders is None else orders
-    with rdomain(py, **(rdomain_kw or {})):
+    with rdomain(py, **(rdomain_kw or {})), record_divisors() as divs:
         sv = {s.name: RSym(s) for s in symbols}
         sv[eps.name] = RSym(eps)
         res = code(sv)
         got = flat(res)
+    divisor_obligations(ctx, name, [d.subs(eps, 0) for d in divs], dom,
+                        (lambda v: code(dict(v, **{eps.name: 0.0}))), symbols, py, derived=derived,
+                        const_box=const_box)
     if post is not None:
         got = post(got)
     ctx.paths += 1
@@ -252,7 +260,7 @@ def taylor_spec(ctx, name, symbols, eps, code, spec_coeffs, order, domain=None, 
         fw = lambdify_at_constants(py, [want[i][k]], symbols)
         with mpmath.workdps(30):
             w = float(fw(*[mpmath.mpf(v[s.name]) for s in symbols])[0])
-        return dict(reproduced=not _close(g, w, tol * 10 ** k), inputs=v, order=k,
+        return dict(reproduced=not _close(g, w, tol * 10 ** k, 1.0), inputs=v, order=k,
                     measured_on_real_code=g, contract_demands=w,
                     method="central finite differences, step %g" % h)
 
@@ -266,6 +274,47 @@ def taylor_spec(ctx, name, symbols, eps, code, spec_coeffs, order, domain=None, 
     if crosscheck and post is None:
         # cross-check the eps-dependent expression itself at small random eps
         d2 = dict(dom)
-        d2[eps] = (-1e-3, 1e-3)
-        cross_check(ctx, name, list(symbols) + [eps], code, got, d2, py=py, tol=1e-8)
+        d2[eps] = (-0.5, 0.5)
+        cross_check(ctx, name, list(symbols) + [eps], code, got, d2, py=py, tol=1e-5)
     return coeffs
+
+
+# ---------------------------------------------------------------------------
+# divisor obligations
+# ---------------------------------------------------------------------------
+CONST_BOX = {wgs84.A: (6.0e6, 6.8e6), wgs84.E2: (0.0, 0.02), wgs84.RATE: (1e-5, 1e-3),
+             wgs84.GE: (9.0, 10.5), wgs84.GP: (9.0, 10.5), wgs84.F: (0.0, 0.01),
+             field.PI: (3.14159, 3.1416)}
+
+
+def divisor_obligations(ctx, name, divisors, domain, code, symbols, py, derived=None, const_box=None):
+    """One obligation per distinct divisor the code executed: it must not vanish on the
+    contract's domain (boxes for the symbols; Earth-like ranges for the ellipsoid constants)."""
+    box = dict(CONST_BOX)
+    box.update(const_box or {})
+    for s, b in (domain or {}).items():
+        if s not in wgs84.CONSTANT_SYMBOLS.values():
+            box[s] = b
+    seen = []
+    for d in divisors:
+        d = sp.sympify(d)
+        if d.is_number or any(d == x for x in seen):
+            continue
+        seen.append(d)
+    for k, d in enumerate(seen):
+        v = nonzero.check_nonzero(d, box, seed=ctx.seed + k, derived=derived)
+
+        def native_fn(point, _d=d):
+            vals = {s.name: point.get(s.name, 0.0) for s in symbols}
+            try:
+                out = flat_float(code(vals))
+                bad = any(math.isnan(x) or math.isinf(x) for x in out)
+                return dict(reproduced=bad, inputs=vals, real_code_output=out[:9],
+                            note="non-finite output at a zero of the divisor" if bad else "output finite at this float point")
+            except ZeroDivisionError as exc:
+                return dict(reproduced=True, inputs=vals, raised=repr(exc))
+            except Exception as exc:
+                return dict(reproduced=None, inputs=vals, raised=repr(exc))
+        ctx.from_verdict("%s.divisor[%d]" % (name, k), "d", v, native_fn)
+        if ctx.obs and ctx.obs[-1].name.endswith(".divisor[%d]" % k):
+            ctx.obs[-1].detail = (ctx.obs[-1].detail + " | divisor: " + str(d)[:160]).strip(" |")
